@@ -4,6 +4,8 @@ import (
 	"bytes"
 	"encoding/json"
 	"fmt"
+	"os"
+	"os/exec"
 	"strings"
 	"sync"
 	"time"
@@ -212,7 +214,7 @@ func RunAttribution(r *chk.Run) {
 			for in := range jobs {
 				why := checkAttribution(in)
 				if why == "HUNG" {
-					chk.Fatalf("C15: Stream did not return within 60 s on script %v", in.Script)
+					hungViolation(r, "C15", "attribution", in)
 				}
 				if why != "" {
 					in2 := in
@@ -276,6 +278,8 @@ type InjInput struct {
 	// Raw: Bytes is the whole packet (no event marker in front): an ERR packet of
 	// unusual shape; the reader finds it, its failure is what Error() reports
 	Raw bool `json:"raw,omitempty"`
+	// Child: execute in a child process (packets the reader goroutine decodes itself)
+	Child bool `json:"child,omitempty"`
 	// Accepted: a buffer the validity gate accepts (a complete header whose
 	// length field matches, and nothing or too little behind it): whatever the
 	// streamer makes of it, it must not panic and must not deliver a partial transaction
@@ -309,7 +313,60 @@ func injHistory() *ref.History {
 	return injHist
 }
 
+func init() {
+	// one injection in a process of its own: prints the verdict
+	chk.Modes["injone"] = func(args []string) {
+		var in InjInput
+		if len(args) < 1 || json.Unmarshal([]byte(args[0]), &in) != nil {
+			fmt.Println("INJONE-BAD-INPUT")
+			return
+		}
+		in.Child = false
+		fmt.Println("INJONE-RESULT:" + checkInjection(in))
+	}
+}
+
+// checkInjectionChild runs checkInjection in a child process of this binary: a
+// packet that makes a goroutine of the library panic (the reader: nothing can
+// recover there) takes the child down, not the check.
+func checkInjectionChild(in InjInput) string {
+	b, _ := json.Marshal(in)
+	cmd := exec.Command(os.Args[0], "injone", string(b))
+	cmd.Env = append(os.Environ(), "VERIF_SUB=")
+	out, err := cmd.CombinedOutput()
+	text := string(out)
+	if i := strings.Index(text, "INJONE-RESULT:"); i >= 0 {
+		return strings.TrimSpace(text[i+len("INJONE-RESULT:"):])
+	}
+	why := "the process died"
+	for _, l := range strings.Split(text, "\n") {
+		if strings.HasPrefix(l, "panic:") || strings.HasPrefix(l, "fatal error:") {
+			why += ": " + l
+			break
+		}
+	}
+	frames := []string{}
+	for _, l := range strings.Split(text, "\n") {
+		if strings.HasPrefix(l, "github.com/Breeze0806/") && len(frames) < 4 {
+			if i := strings.LastIndex(l, "("); i > 0 {
+				l = l[:i]
+			}
+			frames = append(frames, strings.TrimPrefix(l, "github.com/Breeze0806/"))
+		}
+	}
+	if len(frames) > 0 {
+		why += " [" + strings.Join(frames, " < ") + "]"
+	}
+	if err == nil {
+		why += " (no verdict printed)"
+	}
+	return "panic outside Stream (a goroutine of the library; nothing can recover it): " + why
+}
+
 func checkInjection(in InjInput) string {
+	if in.Child {
+		return checkInjectionChild(in)
+	}
 	h := injHistoryOf(in)
 	start := ref.Position{File: h.Files[0].Name, Pos: 4}
 	served, _ := h.Serve(start.File, 4)
@@ -432,7 +489,7 @@ func RunInjection(r *chk.Run) {
 			continue
 		}
 		for _, raw := range [][]byte{{0xff}, {0xff, 0xd4}, {0xff, 0xd4, 0x04}, {0xff, 0xd4, 0x04, '#'}, {0xff, 0xd4, 0x04, '#', 'H', 'Y', '0'}, {0xff, 0xd4, 0x04, 'x'}} {
-			inputs = append(inputs, InjInput{At: at, Bytes: raw, Raw: true, Note: fmt.Sprintf("ERR packet of %d bytes", len(raw))})
+			inputs = append(inputs, InjInput{At: at, Bytes: raw, Raw: true, Child: true, Note: fmt.Sprintf("ERR packet of %d bytes", len(raw))})
 		}
 		// (event types of which the streamer reads the header only: XID, the GTID
 		// family, types it does not interpret, types it refuses. The body decoders of
@@ -461,7 +518,7 @@ func RunInjection(r *chk.Run) {
 			in := inputs[k]
 			why := checkInjection(in)
 			if why == "HUNG" {
-				chk.Fatalf("C17: Stream did not return within 60 s (%s at %d)", in.Note, in.At)
+				hungViolation(r, "C17", "injection", in)
 			}
 			if why != "" {
 				in2 := in
@@ -501,7 +558,9 @@ func RunInjection(r *chk.Run) {
 			break
 		}
 		in2 := in
-		if why := checkInjection(in2); why != "" && why != "HUNG" {
+		if why := checkInjection(in2); why == "HUNG" {
+			hungViolation(r, "checkInjection", "injection", in2)
+		} else if why != "" {
 			r.Report(chk.Violation{Key: injKey(why), What: fmt.Sprintf("%s at packet %d: %s", in2.Note, in2.At, why), Kind: "injection", Replay: in2,
 				Recheck: func() string { return checkInjection(in2) }})
 		}
@@ -757,7 +816,7 @@ func RunMarshal(r *chk.Run) {
 			h := in.build()
 			out := Run(h, Opts{Start: ref.Position{File: h.Files[0].Name, Pos: 4}, ServerID: 3, KeepTx: true})
 			if out.Hung {
-				chk.Fatalf("C20: Stream did not return within 60 s on %v", in.Units)
+				hungViolation(r, "C20", "history", in)
 			}
 			why := marshalHistory(in, h, out)
 			local += int64(len(out.Deliveries))
@@ -1020,7 +1079,7 @@ func RunRestart(r *chk.Run) {
 					trans += int64(len(script))
 					why := checkRestart(in)
 					if why == "HUNG" {
-						chk.Fatalf("restart: Stream did not return within 60 s on script %v", script)
+						hungViolation(r, "restart", "restart", in)
 					}
 					if why != "" {
 						r.Report(chk.Violation{Key: "restart:" + attrKey(why), What: fmt.Sprintf("script=%v cfg=%s lockstep=%v: %s", script, CfgName(cfg), lock, why),
@@ -1071,7 +1130,7 @@ func RunSharedText(r *chk.Run) {
 				n++
 				why, _, _ := checkGrouping(in)
 				if why == "HUNG" {
-					chk.Fatalf("shared text: Stream did not return within 60 s (%v)", in.Units)
+					hungViolation(r, "shared text", "history", in)
 				}
 				if why != "" {
 					r.Report(chk.Violation{Key: "sharedtext:" + classify(why), What: fmt.Sprintf("units=%v cfg=%s lockstep=%v: %s", in.Units, CfgName(cfg), lock, why),
@@ -1286,7 +1345,7 @@ func runSchemaChange(r *chk.Run, lookupFails bool) {
 				n++
 				why := checkSchema(in)
 				if why == "HUNG" {
-					chk.Fatalf("schema change: Stream did not return within 60 s")
+					hungViolation(r, "schema change", "schema", in)
 				}
 				if why != "" {
 					r.Report(chk.Violation{Key: "schema-change:" + v, What: fmt.Sprintf("variant=%s kind=%d cfg=%s: %s", v, kind, CfgName(cfg), why),
@@ -1430,7 +1489,7 @@ func RunNumericShapes(r *chk.Run) {
 					n++
 					why := checkNum(in)
 					if why == "HUNG" {
-						chk.Fatalf("numeric shapes: Stream did not return within 60 s")
+						hungViolation(r, "numeric shapes", "numshapes", in)
 					}
 					if why != "" {
 						r.Report(chk.Violation{Key: fmt.Sprintf("rows:numeric-group%d", group), What: fmt.Sprintf("group=%d kind=%d rows=%d cfg=%s: %s", group, kind, rows, CfgName(cfg), why),
@@ -1544,7 +1603,7 @@ func RunTableIDs(r *chk.Run) {
 			n++
 			why := checkTableID(in)
 			if why == "HUNG" {
-				chk.Fatalf("table ids: Stream did not return within 60 s")
+				hungViolation(r, "table ids", "tableid", in)
 			}
 			if why != "" {
 				r.Report(chk.Violation{Key: "table-id-edge", What: fmt.Sprintf("table id %#x (second table of the statements: id %#x, announced first: %v) cfg=%s: %s", id, in.Other, in.OtherFirst, CfgName(cfg), why),
@@ -1640,7 +1699,7 @@ func RunCountChange(r *chk.Run) {
 				n++
 				why := checkCountChange(in)
 				if why == "HUNG" {
-					chk.Fatalf("column count change: Stream did not return within 60 s")
+					hungViolation(r, "column count change", "countchange", in)
 				}
 				if why != "" {
 					r.Report(chk.Violation{Key: "attr:count-change", What: fmt.Sprintf("grow=%v kind=%d cfg=%s: %s", grow, kind, CfgName(cfg), why),
@@ -1713,7 +1772,9 @@ func RunCaseTwins(r *chk.Run) {
 	for _, cfg := range Cfgs() {
 		cfg := cfg
 		n++
-		if why := checkCaseTwins(cfg); why != "" && why != "HUNG" {
+		if why := checkCaseTwins(cfg); why == "HUNG" {
+			hungViolation(r, "checkCaseTwins", "casetwins", cfg)
+		} else if why != "" {
 			r.Report(chk.Violation{Key: "attr:case-twins", What: fmt.Sprintf("tables Shop.Item / shop.item cfg=%s: %s", CfgName(cfg), why),
 				Kind: "casetwins", Replay: cfg, Recheck: func() string { return checkCaseTwins(cfg) }})
 		}
@@ -1781,7 +1842,9 @@ func RunHeaderBytes(r *chk.Run) {
 	for _, cfg := range Cfgs() {
 		cfg := cfg
 		n++
-		if why := checkHeaderBytes(cfg); why != "" && why != "HUNG" {
+		if why := checkHeaderBytes(cfg); why == "HUNG" {
+			hungViolation(r, "checkHeaderBytes", "headerbytes", cfg)
+		} else if why != "" {
 			r.Report(chk.Violation{Key: "reader:leading-header-bytes", What: fmt.Sprintf("768 transactions with every leading timestamp byte, cfg=%s: %s", CfgName(cfg), why),
 				Kind: "headerbytes", Replay: cfg, Recheck: func() string { return checkHeaderBytes(cfg) }})
 		}
@@ -1791,7 +1854,9 @@ func RunHeaderBytes(r *chk.Run) {
 		for _, units := range [][]string{{UTxXID, URotate, UDDL, UTxXID}, {UDDL, URotate, URotate, UTxCommit}} {
 			in := HistInput{Units: units, Cfg: cfg, LockStep: true, Oracle: "fidelity"}
 			n++
-			if why, _, _ := checkGrouping(in); why != "" && why != "HUNG" {
+			if why, _, _ := checkGrouping(in); why == "HUNG" {
+				hungViolation(r, "checkGrouping", "history", in)
+			} else if why != "" {
 				r.Report(chk.Violation{Key: "stream:second-format-description", What: fmt.Sprintf("units=%v cfg=%s: %s", units, CfgName(cfg), why),
 					Kind: "history", Replay: in, Recheck: func() string { w, _, _ := checkGrouping(in); return w }})
 			}
@@ -1892,7 +1957,7 @@ func RunUnknownTypes(r *chk.Run) {
 				n++
 				why := checkUnknownType(in)
 				if why == "HUNG" {
-					chk.Fatalf("unknown types: Stream did not return within 60 s")
+					hungViolation(r, "unknown types", "unktype", in)
 				}
 				if why != "" {
 					r.Report(chk.Violation{Key: "unknown-type-alters-grouping", What: fmt.Sprintf("event type %d inside=%v cfg=%s: %s", t, inside, CfgName(cfg), why),
@@ -1945,7 +2010,9 @@ func RunServerVersions(r *chk.Run) {
 				for _, units := range [][]string{{UTxXID, URotate, UDDL, UTxCommit}, {UDDL, UTxCommit, URotate, UTxXID, UStmtOut}} {
 					in := HistInput{Units: units, Cfg: cfg, LockStep: true, Oracle: "fidelity"}
 					n++
-					if why, _, _ := checkGrouping(in); why != "" && why != "HUNG" {
+					if why, _, _ := checkGrouping(in); why == "HUNG" {
+						hungViolation(r, "checkGrouping", "history", in)
+					} else if why != "" {
 						r.Report(chk.Violation{Key: "server-version", What: fmt.Sprintf("server version %q units=%v cfg=%s: %s", v.ver, units, CfgName(cfg), why),
 							Kind: "history", Replay: in, Recheck: func() string { w, _, _ := checkGrouping(in); return w }})
 					}
@@ -1953,7 +2020,9 @@ func RunServerVersions(r *chk.Run) {
 					in2 := in
 					in2.CutAt = 7
 					n++
-					if why, _, _ := checkGrouping(in2); why != "" && why != "HUNG" {
+					if why, _, _ := checkGrouping(in2); why == "HUNG" {
+						hungViolation(r, "checkGrouping", "history", in2)
+					} else if why != "" {
 						r.Report(chk.Violation{Key: "server-version:resume", What: fmt.Sprintf("server version %q units=%v cfg=%s: %s", v.ver, units, CfgName(cfg), why),
 							Kind: "history", Replay: in2, Recheck: func() string { w, _, _ := checkGrouping(in2); return w }})
 					}
@@ -2198,7 +2267,9 @@ func RunScale(r *chk.Run, only ...string) {
 		in := in
 		n++
 		ran = append(ran, fmt.Sprintf("%s n=%d %s", in.Case, in.N, CfgName(in.Cfg)))
-		if why := checkScale(in); why != "" && why != "HUNG" {
+		if why := checkScale(in); why == "HUNG" {
+			hungViolation(r, "checkScale", "scale", in)
+		} else if why != "" {
 			r.Report(chk.Violation{Key: "scale:" + in.Case, What: fmt.Sprintf("%s n=%d cfg=%s: %s", in.Case, in.N, CfgName(in.Cfg), why),
 				Kind: "scale", Replay: in, Recheck: func() string { return checkScale(in) }})
 		}
@@ -2770,7 +2841,9 @@ func RunPartialImages(r *chk.Run) {
 			in := in
 			cfg, wipe := in.Cfg, in.Wipe
 			n++
-			if why := checkPartial(in); why != "" && why != "HUNG" {
+			if why := checkPartial(in); why == "HUNG" {
+				hungViolation(r, "checkPartial", "partial", in)
+			} else if why != "" {
 				r.Report(chk.Violation{Key: "partial-images", What: fmt.Sprintf("cfg=%s wipe=%v: %s", CfgName(cfg), wipe, why), Kind: "partial", Replay: in, Recheck: func() string { return checkPartial(in) }})
 			}
 		}
@@ -2842,7 +2915,9 @@ func RunRename(r *chk.Run) {
 	for _, cfg := range Cfgs() {
 		cfg := cfg
 		n++
-		if why := checkRename(cfg); why != "" && why != "HUNG" {
+		if why := checkRename(cfg); why == "HUNG" {
+			hungViolation(r, "checkRename", "rename", cfg)
+		} else if why != "" {
 			r.Report(chk.Violation{Key: "mapper-rename", What: fmt.Sprintf("cfg=%s: %s", CfgName(cfg), why), Kind: "rename", Replay: cfg, Recheck: func() string { return checkRename(cfg) }})
 		}
 	}
@@ -2862,4 +2937,15 @@ func ReplayRename(input json.RawMessage) (bool, string) {
 		return false, "events carry the names of the mapper's tables"
 	}
 	return true, why
+}
+
+// hungViolation: the real Stream (or Error()) did not return within 60 s although
+// its master had served the whole history and ended the dump: a decode loop
+// that does not end, a wait that nothing ends. Not a scheduling matter (E1
+// decides those on the small systems): reported at once, the run ends here
+// because stuck goroutines may keep allocating.
+func hungViolation(r *chk.Run, what, kind string, replay interface{}) {
+	r.Report(chk.Violation{Key: "no-progress", What: what + ": Stream did not return within 60 s although the master had served the whole history and ended the dump (a decode loop that does not end, a wait that nothing ends)", Kind: kind, Replay: replay})
+	r.SetExhaustive(false)
+	r.Finish()
 }
